@@ -7,7 +7,8 @@
 (* one, or - Overwrite - an existing one).  Value types never change: all   *)
 (* that evolves is which objects exist and which variables are the SAME      *)
 (* object (resolve() of an absolute padding and to_exact() of an exact one   *)
-(* return the operand itself).                                              *)
+(* may return the operand itself or an equal new instance: both are named    *)
+(* actions).  Refused operations are steps too: they must leave S as it is.  *)
 (*                                                                         *)
 (* Two families per behaviour: "pad" (paddings and sizes - a padded size     *)
 (* computed by one padding can be the render size given to the next) and     *)
@@ -23,7 +24,8 @@ CONSTANTS
   ProbeAll,      \* TRUE: immutability / refusal probes on every stored object, else only on
                  \* the most recently bound slot
   Fams,          \* subset of {"pad", "color"}
-  Subs,          \* TRUE: subclasses (SubAligned, SubExact, SubSize, SubColor) take part
+  Subs,          \* TRUE: subclasses (SubAligned, SubExact, SubSize, SubColor) and the user-written
+                 \* CustomPadding take part
   AlignedSeeds,  \* {<<w, h, ha, va, fill>>}
   AlignedDefaultSeeds,  \* {<<w, h>>}   AlignedPadding(w, h)
   ExactSeeds,    \* {<<l, t, r, b, fill>>}, negative dimensions included
